@@ -139,8 +139,10 @@ def run_case(case, only_a=None):
             except Exception as e:  # noqa: BLE001
                 got = f"{type(e).__name__}: {e}"
             if missing_tz:
-                ok = got == "LocalTimezoneMissing" or (not must_raise and got is model)
-                want_desc = "LocalTimezoneMissing" if must_raise else f"{model} or LocalTimezoneMissing"
+                # the error is permitted only where the answer depends on the (floating) trigger: with nothing
+                # acknowledged, or snoozed until after the acknowledgement, the alarm IS active whatever its trigger
+                ok = (got == "LocalTimezoneMissing") if must_raise else (got is model)
+                want_desc = "LocalTimezoneMissing" if must_raise else model
             else:
                 ok = got is model
                 want_desc = model
@@ -200,7 +202,7 @@ def run_case(case, only_a=None):
                         got2 = "LocalTimezoneMissing"
                     except Exception as e:  # noqa: BLE001
                         got2 = f"{type(e).__name__}: {e}"
-                    ok2 = (got2 == "LocalTimezoneMissing" or (not must_raise2 and got2 is model2)) if missing_tz else got2 is model2
+                    ok2 = ((got2 == "LocalTimezoneMissing") if must_raise2 else (got2 is model2)) if missing_tz else got2 is model2
                     if not ok2:
                         fails.append(fail(f"is_active-after-ACKNOWLEDGED-changed-in-place:{label}", case,
                                           ("LocalTimezoneMissing" if must_raise2 else model2), got2, a_i))
@@ -236,7 +238,8 @@ def run(ctx):
                 "row over all 6 values of A. non-trivial = every row.")
     ctx.bounds = {"deltas": [str(d) for d in DELTAS], "kinds": KINDS, "local": LOCAL, "paths": PATHS}
     ctx.assumptions += ["floating and date triggers are interpreted in the local zone given to Alarms.set_local_timezone "
-                        "(date = local midnight); without it LocalTimezoneMissing is required only where the answer depends on the trigger",
+                        "(date = local midnight); without it LocalTimezoneMissing is required where the answer depends on the trigger and NOT permitted where it does not "
+                        "(nothing acknowledged, or snoozed until after the acknowledgement: the alarm is active whatever its trigger)",
                         "the second alarm's trigger is one hour (date: one day) earlier with its own ACKNOWLEDGED",
                         "is_active() answers for the alarm's ACKNOWLEDGED at the time of the call (the property is read live), also on an "
                         "AlarmTime computed before the acknowledgement was changed in place"]
